@@ -85,7 +85,7 @@ func isSyncMutex(t types.Type) bool {
 }
 
 func c20Model(r *fw.Run, p *fw.Program) *c20ctx {
-	ru := r.Rule("C20.lock", "every read and write of mutable ctxstack.Stack state (cancelFns slice header, its elements, len, append, reslice; the pop closure's flag) happens while the sync.Mutex field of the same Stack is held: Lock dominates, no Unlock/deferred-unlock run in between on any path", 22)
+	ru := r.Rule("C20.lock", "every read and write of mutable ctxstack.Stack state (cancelFns slice header, its elements, len, append, reslice; the pop closure's flag) happens while the sync.Mutex field of the same Stack is held: Lock dominates, no Unlock/deferred-unlock run in between on any path", 18)
 	named := p.NamedType("internal/ctxstack", "Stack")
 	if named == nil {
 		ru.Undecided("anchor:ctxstack.Stack", "", "type internal/ctxstack.Stack not found")
@@ -789,7 +789,7 @@ func (cs *c20ctx) guardedLoadsIn(fn *ssa.Function, v ssa.Value, out map[*ssa.UnO
 }
 
 func c20Atomic(r *fw.Run, cs *c20ctx) {
-	ru := r.Rule("C20.atomic", "compound operations on the cancel-function slice are ONE critical section: every load of Stack state that feeds an index / reslice bound / stored value, or a branch condition guarding it (the len test before the indexed call), is made under the same uninterrupted hold of the mutex as the operation itself", 6)
+	ru := r.Rule("C20.atomic", "compound operations on the cancel-function slice are ONE critical section: every load of Stack state that feeds an index / reslice bound / stored value, or a branch condition guarding it (the len test before the indexed call), is made under the same uninterrupted hold of the mutex as the operation itself", 4)
 	p := cs.p
 	ord := map[string]int{}
 	for _, fn := range cs.fns {
